@@ -305,6 +305,10 @@ class SArr:
     def item(self):
         return self.flat_list()[0]
 
+    def tobytes(self, order="C"):
+        # hashable stand-in: equal exactly when the element sequences are equal (hashing concretises symbolic elements)
+        return sc.SymKey(self.flat_list())
+
     def fill(self, v):
         for o in self.offs:
             self.buf[o] = v
